@@ -276,7 +276,8 @@ def p_nearmiss(rng: Any, form: int | None = None) -> tuple[str, list[Any]]:
         return ('nearmiss/D.I@otherD', [d1.I, d2]) if rng.integers(2) else ('nearmiss/D@otherD.I', [d1, d2.I])
     if form == 4:      # move-axis pair that is inverse for the first leaf's rank only (axes written with other signs)
         dt = _dt(rng)
-        st = [S(pick(rng, [(2, 2), (2, 3)]), dt), S((2, 2, 2), dt)] if rng.integers(2) else [S((2, 2, 2), dt), S((2, 2), dt)]
+        # distinct dimensions: a wrong simplification also shows in the shapes, not only in the values
+        st = [S(pick(rng, [(2, 3), (3, 2)]), dt), S((2, 3, 4), dt)] if rng.integers(2) else [S((2, 3, 4), dt), S((3, 2), dt)]
         r0 = len(st[0].shape)
         for _ in range(30):
             m = gen.a_moveaxis(rng, st)
